@@ -1,41 +1,49 @@
 /-
-M-Text, part 4 — the FRAGMENT PORT: for a small fragment of the language (nested anonymous tuples of
-identifiers, one statement, no trivia) both directions of the formatter are modelled,
+M-Text, part 4 — the FRAGMENT PORT: for a fragment of the language both directions of the formatter are
+modelled,
 
   * AST → `Doc`: the builders of `quiver-compiler/src/format.rs` on that fragment, on top of the `Doc`
-    engine of Core/Text/Doc (`statement_doc` → `sequence_doc_with` → `chain_doc` → `term_doc` →
-    `tuple_doc` → `bracketed` → `field_doc` → `chain_doc` …), and
+    engine of Core/Text/Doc (`format_program` → `statement_doc` → `sequence_doc_with` → `chain_doc` →
+    `term_doc` → `tuple_doc` → `bracketed` → `field_doc` → `chain_doc` …), and
   * text → AST: the productions of `quiver-compiler/src/parser.rs` that the fragment reaches
-    (`program`, `tuple_term`, `tuple_field_list`, `identifier`), written with the nom combinator layer
-    of Core/Parse/Type (`wsc`, `commaWsc`, `sepList0`, `delimited`, … — the same token/white-space
-    layer as the type-grammar port, not a second one),
+    (`program`, `sequence`, `seq_sep`, `tuple_term`, `tuple_field_list`, `tuple_field`, `identifier`,
+    `tuple_name`), written with the nom combinator layer of Core/Parse/Type (`wsc`, `commaWsc`,
+    `seqSep`, `sepList0/1`, `delimited`, … — the same token/white-space layer as the type-grammar port,
+    not a second one),
 
 so that "format, then parse, gives the program back" is a statement about two models that are both
-tied to the implementation by the differential of `harness/src/bin/c17` (request `frag`).
+tied to the implementation by the differential of `harness/src/bin/c17` (requests `frag-*`).
+
+The fragment (after step 2): ONE statement that is a sequence of one or more steps; each step a
+one-term chain whose term is a bare identifier, a bare tuple name `A`, or a tuple `[…]` / `A[…]` with
+unnamed or named (`x: t`) fields that are again one-term chains of the fragment; no trivia.
 
 Rust (format.rs)                          here
 ----------------                          ----
 break_if_wider_than                       `breakIfWiderThan`
 bracketed(open, close, items, true)       `bracketed`
-tuple_doc (anonymous)                     `termDoc (.tup fs)`  (`[]` when there is no field)
+tuple_doc                                 `termDoc (.tup name fs)`  (`[]` / `A` when there is no field)
 render_access (a bare identifier)         `termDoc (.leaf n)`
-field_doc (unnamed chain, no trivia)      `fieldDoc`   = concat [nil, chain_doc, nil]
+field_doc (no trivia)                     `fieldDocOf`  = concat [nil, value, nil], value = chain_doc or
+                                          concat [text "x: ", chain_doc]
 chain_doc (no pattern, one term)          `chainDoc`   = concat [nil, group (break_if_wider_than …)]
-sequence_doc_with (one chain)             `sequenceDoc` = group (concat [item, nest 0 (concat [])])
+sequence_doc_with                         `sequenceDoc` = group (concat [first, nest 0 (concat rest)]),
+                                          separator `seqSepDoc` = concat [ifBreak(nil, ","), line]
 format_program (one statement)            `programDoc`, `fmtFrag`
 
 Rust (parser.rs)                          here
 ----------------                          ----
-tuple_term (the `[ … ]` alternative)      `tupleP`
-tuple_field_list                          `sepList0 commaWsc · ` then `opt (wsc ,)`
-tuple_field (unnamed chain of one term)   the term parser itself
-term → access (bare identifier)           `pmap identifier T.leaf`
-program (ws, one statement, ws, eof)      `programP`
+tuple_field                               `fieldP`   (named alternative | chain)
+tuple_field_list in brackets              `bracketsP`
+tuple_term (three alternatives)           `tupleP`
+primary → tuple | access (identifier)     `termP`
+sequence                                  `sequenceP`
+program                                   `programP`
 
-The productions that the fragment cannot reach (named fields `name: chain` — fails at the `:`; spreads
-— fail at the first character; the other term alternatives — fail at `[` resp. a lower-case letter)
-are left out of the fragment parser; that it agrees with the real parser on the fragment's texts is
-what the differential checks.
+The productions that the fragment cannot reach (spreads — fail at the first character; the speculative
+`pattern =` alternative of `chain` — fails at the `=`; type alias — fails at the first character; the
+other primaries) are left out of the fragment parser; that it agrees with the real parser on the
+fragment's texts is what the differential checks.
 -/
 import QuiverModel.Core.Parse.Type
 import QuiverModel.Core.Text.Doc
